@@ -252,6 +252,86 @@ theorem loadtxtNum_big {ν : Type} (parse : Token → Option ν) (round : ν →
   exact shapeTable_mat false _ m (by simpa using hN) hm (by
     intro r hr; obtain ⟨r', hr', rfl⟩ := List.mem_map.1 hr; simpa using hrect r' hr')
 
+/-! ### `ndmin=2`: no squeeze (F16) -/
+
+/-- a rectangular table of writable tokens: any number `N ≥ 0` of rows, each of `m` good tokens
+(`m ≥ 1` as soon as there is a row, by `GoodRow`) -/
+def RectTable (rows : List (List Token)) (m : Nat) : Prop :=
+  (∀ r ∈ rows, GoodRow r) ∧ ∀ r ∈ rows, r.length = m
+
+theorem BigTable.rect {rows : List (List Token)} (h : BigTable rows) : ∃ m, RectTable rows m := by
+  obtain ⟨hg, _, m, _, hrect⟩ := h
+  exact ⟨m, hg, hrect⟩
+
+theorem shapeTable2_rect {τ : Type} (rows : List (List τ)) (m : Nat) (hrect : ∀ r ∈ rows, r.length = m) :
+    shapeTable2 rows = .ok (.mat rows) := by
+  cases rows with
+  | nil => rfl
+  | cons r0 rest =>
+    have h0 : r0.length = m := hrect r0 (by simp)
+    have hall : rest.all (fun r => r.length == r0.length) = true := by
+      rw [List.all_eq_true]; intro r hr; simp [hrect r (by simp [hr]), h0]
+    simp [shapeTable2, hall]
+
+theorem shapeTable2_ragged {τ : Type} (r0 : List τ) (rest : List (List τ))
+    (h : ∃ r ∈ rest, r.length ≠ r0.length) : shapeTable2 (r0 :: rest) = .error .ValueError := by
+  obtain ⟨r, hr, hne⟩ := h
+  have : rest.all (fun r => r.length == r0.length) = false := by
+    rw [List.all_eq_false]; exact ⟨r, hr, by simpa using hne⟩
+  simp [shapeTable2, this]
+
+theorem loadtxtStr2_rect (rows : List (List Token)) (m : Nat) (h : RectTable rows m) :
+    loadtxtStr2 (printTable rows) = .ok (.mat rows) := by
+  rw [loadtxtStr2, tokenize_printTable rows h.1, shapeTable2_rect rows m h.2]
+
+theorem loadtxtNum2_rect {ν : Type} (parse : Token → Option ν) (round : ν → ν) (val : Token → ν)
+    (rows : List (List Token)) (m : Nat) (h : RectTable rows m)
+    (hp : ∀ r ∈ rows, ∀ t ∈ r, parse t = some (val t)) :
+    loadtxtNum2 parse round (printTable rows)
+      = .ok (.mat (rows.map (fun r => r.map (fun t => round (val t))))) := by
+  rw [loadtxtNum2, tokenize_printTable rows h.1, convertRows_ok parse round val rows hp]
+  exact shapeTable2_rect _ m (by
+    intro r hr; obtain ⟨r', hr', rfl⟩ := List.mem_map.1 hr; simpa using h.2 r' hr')
+
+/-- the list of bases as written in a `bases_path` file (read with `ndmin=1`): a one-column file (one basis
+word per line — the form used by tutorial 3) or a one-row file is the 1-D list of its tokens; any other
+table is the 2-D table. -/
+def basesAsWritten {τ : Type} (T : List (List τ)) (m : Nat) : Arr τ :=
+  if T.length ≤ 1 ∨ m ≤ 1 then .vec T.flatten else .mat T
+
+theorem shapeTable_true_rect {τ : Type} (rows : List (List τ)) (m : Nat) (hne : ∀ r ∈ rows, r ≠ [])
+    (hrect : ∀ r ∈ rows, r.length = m) : shapeTable true rows = .ok (basesAsWritten rows m) := by
+  match rows with
+  | [] => simp [shapeTable, basesAsWritten]
+  | [r] =>
+    have hr : r.length = m := hrect r (by simp)
+    match r, hne r (by simp) with
+    | [x], _ => simp [shapeTable, squeeze, basesAsWritten]
+    | x :: y :: zs, _ => simp [shapeTable, squeeze, basesAsWritten]
+  | r0 :: r1 :: rs =>
+    have h0 : r0.length = m := hrect r0 (by simp)
+    have hall : (r1 :: rs).all (fun r => r.length == r0.length) = true := by
+      rw [List.all_eq_true]; intro r hr; simp [hrect r (by simp [hr]), h0]
+    by_cases hm : m = 1
+    · have hone : (r0 :: r1 :: rs).all (fun r => r.length == 1) = true := by
+        rw [List.all_eq_true]; intro r hr; simp [hrect r hr, hm]
+      simp only [shapeTable, hall, if_true, squeeze, hone, basesAsWritten, hm]
+      simp
+    · have hm2 : ¬ m ≤ 1 := by
+        have : r0 ≠ [] := hne r0 (by simp)
+        have : 0 < r0.length := List.length_pos_of_ne_nil this
+        omega
+      have hnot : (r0 :: r1 :: rs).all (fun r => r.length == 1) = false := by
+        simp only [List.all_cons, h0]
+        have : (m == 1) = false := by simpa using hm
+        simp [this]
+      simp only [shapeTable, hall, if_true, squeeze, hnot, basesAsWritten]
+      simp [hm2]
+
+theorem loadtxtStr_true_rect (rows : List (List Token)) (m : Nat) (h : RectTable rows m) :
+    loadtxtStr true (printTable rows) = .ok (basesAsWritten rows m) := by
+  rw [loadtxtStr, tokenize_printTable rows h.1, shapeTable_true_rect rows m (fun r hr => (h.1 r hr).1) h.2]
+
 /-! ### boolean-mask selection -/
 
 theorem maskSelect_eq_filter {τ : Type} (xs : List τ) (bs : List Bool) (h : xs.length = bs.length) :
